@@ -180,8 +180,10 @@ def equilibrium(
     if isinstance(method, str):
         method = method.lower()  # method names are case-insensitive
     fwd_options["method"] = method
-    fwd_fcn = pfunc if method in _EQUIL_METHODS else new_fcn
-    alg_type = "equilibrium" if method in _EQUIL_METHODS else "rootfinder"
+    # (a callable given as the method need not be hashable)
+    is_equil_method = isinstance(method, str) and method in _EQUIL_METHODS
+    fwd_fcn = pfunc if is_equil_method else new_fcn
+    alg_type = "equilibrium" if is_equil_method else "rootfinder"
     return _RootFinder.apply(new_fcn, y0, fwd_fcn, alg_type, fwd_options, bck_options,
                              len(params), *params, *pfunc.objparams())
 
@@ -257,7 +259,8 @@ def minimize(
 
     # minimization can use rootfinder algorithm, so check if it is actually
     # using the optimization algorithm, not the rootfinder algorithm
-    opt_method = method not in _RF_METHODS.keys()
+    # (a callable given as the method need not be hashable)
+    opt_method = not (isinstance(method, str) and method in _RF_METHODS.keys())
 
     # the rootfinder algorithms are designed to move to the opposite direction
     # of the output of the function, so the output of this function is just
